@@ -22,12 +22,15 @@ from ref import relocspec as RS
 
 PROPERTY = "C11"
 LEVEL = "model_checking"
-BOUNDS = {"quick": {"memory bases": "every 4-aligned 32-bit address (x86_64: 47-bit)", "symbol offset": "[0, 2**20), aligned as the ISA requires",
+BOUNDS = {"quick": {"memory bases": "every 4-aligned 32-bit address (x86_64: 47-bit; avr, msp430, mcs6500: 16-bit)",
+                    "symbol offset": "[0, 2**20) ([0, 2**12) for the 16-bit ISAs), aligned as the ISA requires",
                     "addend": "+-2**31 where the relocation type honours it, else the addend the real encoder emits",
                     "placements": ["target in another memory (symbolic distance)", "target in the same section"],
-                    "archs": ["riscv", "riscv:rvc", "arm", "arm:thumb", "x86_64"]},
+                    "archs": ["riscv", "riscv:rvc", "arm", "arm:thumb", "x86_64", "avr", "msp430", "mcs6500", "or1k", "mips",
+                              "microblaze", "xtensa", "m68k"]},
           "thorough": "same (the quick tier is already exhaustive over its stated space); plus 16-byte-aligned sections and a second input object"}
-OUTSIDE = ["relocation types without an entry in ref/relocspec.py", "ISAs other than riscv, rvc, arm, thumb, x86_64",
+OUTSIDE = ["relocation types without an entry in ref/relocspec.py (generic little-endian data words absaddr16/32/64 on the big-endian ISAs or1k, microblaze, m68k)",
+           "ISAs without relocation types (stm8)",
            "non-zero addends for relocation types whose class ignores the addend (ppci's encoders never emit one)",
            "relaxable relocation types cb_imm11/cbl_imm11 (decided under C13)", "whole-program shapes (several objects/sections): placement is C12's subject"]
 ASSUMPTIONS = ["base encoding of the relocated instruction = what the real instruction class emits for a label operand",
@@ -54,8 +57,11 @@ class LinkRelocHarness(Harness):
         self.spec = RS.SPEC[(arch, reloc)]
         self.name = f"link.reloc[{arch}:{reloc}@{ins}/{placement}]"
         self.params = dict(arch=arch, ins=ins, base=base, reloc=reloc, off=off, addend=addend, placement=placement)
-        self.abits = 47 if arch == "x86_64" else 32
-        self.W = self.abits + 40
+        self.abits = 47 if arch == "x86_64" else min(32, _reloc.ADDR_BITS[arch])
+        # symbol offset range / memory sizes: 2**20 for 32-bit address spaces, 2**12 for the 16-bit ISAs
+        self.sobits = 20 if self.abits >= 32 else 12
+        self.endian = self.spec.get("endian", "little")
+        self.W = max(self.abits + 40, 8 * self.spec["size"] + 8)
         self.shim_modules = tuple(_reloc._arch_modules(arch)) + ("ppci.binutils.linker", "ppci.binutils.objectfile",
                                                                    "ppci.binutils.layout")
 
@@ -63,12 +69,12 @@ class LinkRelocHarness(Harness):
         ab = self.abits
         cb = mk.int("code_base", 0, (1 << ab) - 4)
         mk.assume(cb % 4 == 0)
-        so = mk.int("symoff", 0, (1 << 20) - 1)
+        so = mk.int("symoff", 0, (1 << self.sobits) - 1)
         if self.placement == "other":
             db = mk.int("data_base", 0, (1 << ab) - 4)
             mk.assume(db % 4 == 0)
-            # memories must not overlap (code is 64 bytes, data claims 2**20 + 64)
-            mk.assume(sym_or(db >= cb + 64, db + (1 << 20) + 64 <= cb))
+            # memories must not overlap (code is 64 bytes, data claims 2**sobits + 64)
+            mk.assume(sym_or(db >= cb + 64, db + (1 << self.sobits) + 64 <= cb))
             S = db + so
         else:
             db = cb
@@ -79,6 +85,9 @@ class LinkRelocHarness(Harness):
             A = self.addend
         P = cb + PAD + self.off
         mk.assume(self.spec["pre"](S, P))
+        if self.spec.get("wrap"):
+            # displacement as wide as the address space: both addresses lie inside that space
+            mk.assume(sym_and(S < (1 << self.spec["wrap"]), P < (1 << self.spec["wrap"])))
         return dict(code_base=cb, data_base=db, symoff=so, S=S, P=P, A=A,
                     fill=[mk.int(f"fill{k}", 0, 255) for k in range(PAD + TAIL)])
 
@@ -103,13 +112,13 @@ class LinkRelocHarness(Harness):
         layout = lay.Layout()
         m1 = lay.Memory("flash")
         m1.location = i["code_base"]
-        m1.size = 1 << 21
+        m1.size = 1 << (self.sobits + 1)
         m1.add_input(lay.Section("code"))
         layout.add_memory(m1)
         if self.placement == "other":
             m2 = lay.Memory("ram")
             m2.location = i["data_base"]
-            m2.size = 1 << 21
+            m2.size = 1 << (self.sobits + 1)
             m2.add_input(lay.Section("data"))
             layout.add_memory(m2)
         out = lk.link([obj], layout=layout)
@@ -128,8 +137,8 @@ class LinkRelocHarness(Harness):
         if len(code) != PAD + len(self.base) + TAIL:
             return {"section-length-preserved": False}
         lo = PAD + self.off
-        w = RS.le(code[lo:lo + n])
-        w0 = RS.le(list(self.base[self.off:self.off + n]))
+        w = RS.word(code[lo:lo + n], self.endian)
+        w0 = RS.word(list(self.base[self.off:self.off + n]), self.endian)
         S, P, A = i["S"], i["P"], i["A"]
         want = RS.expected(sp, S, A, P)
         got = sp["decode"](w, P)
@@ -224,7 +233,8 @@ def jobs(tier, seed):
     for a in _reloc.ARCHS:
         seen = set()
         for s in _reloc.sites(a):
-            # one instruction class per relocation type in quick (all classes emitting it in thorough)
+            # one instruction class per relocation type in quick (all classes emitting it in thorough;
+            # for the ISAs in _reloc.NEW_ARCHS also every addressing mode / field offset)
             key = s["reloc"]
             if key in RELAXABLE:
                 continue
